@@ -45,3 +45,10 @@ func NoFuel(s uint32) int {
 	}
 	return n
 }
+
+type Big struct {
+	cells []int
+	n, m  int
+}
+
+func Undeclared(b *Big) int { return b.n + b.m }
